@@ -5,13 +5,13 @@ From FV Require Import Base.Prelude Model.ScriptBlocks Model.ExecState Proofs.Ex
 
 (* Every query handled by the wrapper - whatever the stage at which it raised, on a new or on a
    reused executor of any backend, whatever it declared - leaves: no enum/namespace, every executor
-   without job-script blocks, inject blocks or registered extended metadata, and a method-type
+   without job-script blocks, inject blocks, registered extended metadata or additions to its method table, and a method-type
    registry that holds nothing but default tables of backends used in this process.
    For every translator (extract/passes/finder/T are universally quantified) and every history. *)
 Theorem C07_every_handle_ends_clean :
   forall (query body pkg : Type) (raw : backend -> list (mkey * string))
          (extract : query -> result (list decl * body)) (passes : body -> result body)
-         (finder : backend -> list spec -> body -> result body)
+         (finder : backend -> list string -> list spec -> body -> result body)
          (T : backend -> nat -> view -> body -> result pkg * nat) (h : list (op query)),
     let s := run query body pkg raw extract passes finder T fixed h sigma0 in
     g_ns s = [] /\ Forall clean_exec (g_execs s) /\
@@ -28,7 +28,7 @@ Print Assumptions C07_every_handle_ends_clean.
 Theorem C07_independent_partial :
   forall (query body pkg : Type) (raw : backend -> list (mkey * string))
          (extract : query -> result (list decl * body)) (passes : body -> result body)
-         (finder : backend -> list spec -> body -> result body)
+         (finder : backend -> list string -> list spec -> body -> result body)
          (T : backend -> nat -> view -> body -> result pkg * nat) (norm : pkg -> pkg),
     (forall b n m vw bd, rmap norm (fst (T b n vw bd)) = rmap norm (fst (T b m vw bd))) ->
     forall (b : backend) (h : list (op query)) (w : who) (dk : option (string * string)) (q : query),
@@ -84,6 +84,14 @@ Theorem C07_unfixed_refuted_found_extended_md :
   ~ independent_at no_clear_found h_found (Reuse 0) Atlas (Some ("docker", "image:1")) (q_ok []).
 Proof. exact (conj unfixed_found needed_clear_found). Qed.
 Print Assumptions C07_unfixed_refuted_found_extended_md.
+
+(* The executor's method table is part of the state: were a query's declared collections / functions
+   written into the table itself instead of a copy, a reused executor would keep them. *)
+Theorem C07_method_table_copy_needed :
+  ~ independent_at no_copy_methods h_coll (Reuse 0) Atlas None (q_ok []) /\
+  independent_at fixed h_coll (Reuse 0) Atlas None (q_ok []).
+Proof. exact (conj needed_copy_methods fixed_ok_coll). Qed.
+Print Assumptions C07_method_table_copy_needed.
 
 (* non-vacuity: the assumption on T is satisfiable (the concrete instance used on the wire), and
    the four histories above are harmless for the fixed wrapper *)
